@@ -25,7 +25,7 @@ def generate(tier, seed):
         for mode in ("subset", "all", "single"):
             cases.append({"kind": "file", "file": name, "mode": mode, "seed": "%d:%s:%s" % (seed, name, mode),
                           "cost": 120 if name in sources.PROTEINS else 5})
-    n = 450 if tier == "quick" else 5000
+    n = 450 if tier == "quick" else 25000
     for k in range(n):
         cases.append({"kind": "built", "mode": ("subset", "subset", "all", "single", "ghost")[k % 5],
                       "seed": "%d:b:%d" % (seed, k), "cost": 16})
